@@ -263,8 +263,10 @@ def run_case(case, tier, seed):
                     if skip:
                         continue
                     fails = CE.failures
-                    if fails:
-                        same = [f for f in fails if _base(f[0]) == _base(cl.name)] or fails
+                    same = [f for f in fails if _base(f[0]) == _base(cl.name)]
+                    if not same and cl.name == 'no_exception':
+                        same = [f for f in fails if f[0] == 'no_exception']
+                    if same:
                         confirmed = dict(case=case.name, claim=_base(same[0][0]), values=vals,
                                          observed=[same[0][2], same[0][3]], how='solver model (%s), replayed' % v.how,
                                          path=_trace_txt(p),
